@@ -23,6 +23,13 @@ inductive Out where
   | raised (cls : String) (env : Env)
   | brk (env : Env)                          -- `break`: leaves the innermost `while`
 
+/-- the environment an outcome carries -/
+def Out.env : Out → Env
+  | .next e => e | .ret _ e => e | .raised _ e => e | .brk e => e
+/-- the same outcome with another environment -/
+def Out.setEnv : Out → Env → Out
+  | .next _, e => .next e | .ret v _, e => .ret v e | .raised x _, e => .raised x e | .brk _, e => .brk e
+
 inductive Err2 where
   | unsupported (what : String)
   | outOfFuel
@@ -91,6 +98,15 @@ def exec2S : Nat → Meths → Env → PStmt → Except Err2 Out
           | .ok (.brk env1) => .ok (.next env1)
           | r => r
   | _ + 1, _, env, .break_ => .ok (.brk env)
+  | n + 1, M, env, .tryFinally body fin =>
+      -- the `finally` block runs whatever the body did, in the environment the body reached; if it completes normally the body's outcome
+      -- stands (with the environment the `finally` block left), otherwise its own outcome (return / raise / break) replaces it
+      match exec2B n M env body with
+      | .error e => .error e
+      | .ok o =>
+        match exec2B n M o.env fin with
+        | .ok (.next env2) => .ok (o.setEnv env2)
+        | r => r
   | _ + 1, M, env, s => simple2 M env s
 def exec2B : Nat → Meths → Env → PBlock → Except Err2 Out
   | 0, _, _, _ => .error .outOfFuel
